@@ -110,8 +110,13 @@ func (o Model) RebuildIndexes(pattern string) error {
 			}
 			// Loop through indexes and generate a new entry per index
 			for _, idx := range o.IndexSet.Indexes {
+				iv := idx.Key(v.Elem().Interface())
+				// Ignore nil keys
+				if iv == nil {
+					continue
+				}
 				rname := item.KeyCopy(nil)
-				idxKey := idx.getKey(rname, idx.Key(v.Elem().Interface()))
+				idxKey := idx.getKey(rname, iv)
 				err = txn.SetEntry(&badger.Entry{Key: idxKey, Value: nil, UserMeta: typeIndex})
 				if err != nil {
 					return err
